@@ -11,7 +11,7 @@
    not, so [C15_wf_create_names] carries [rectangular data] and [create_ragged_not_wf] shows the
    hypothesis is needed (outside the property's quantifier, see design.d/C15.md). *)
 From Coq Require Import String ZArith NArith List Bool.
-Require Import PV.Base.Val PV.Model.Schema PV.Proofs.Schema PV.Proofs.SchemaOps PV.Proofs.SchemaChain.
+Require Import PV.Base.Val PV.Model.Schema PV.Proofs.Schema PV.Proofs.SchemaOps PV.Proofs.SchemaChain PV.Proofs.SchemaCounts.
 Import ListNotations.
 Open Scope Z_scope.
 Close Scope string_scope.
@@ -107,6 +107,22 @@ Theorem C15_agg_columns : forall f keys pivot aggs p pvals,
   pivot_values f pivot = Ok pvals -> grouped_agg f keys pivot aggs = Ok p ->
   map pname (p_fields p) = map expr_str keys ++ stat_names_schema pvals aggs.
 Proof. exact agg_columns. Qed.
+
+(* ---- row counts: projections keep them, union adds, crossJoin multiplies, limit truncates, and every
+        left row is in exactly one of the left-semi and the left-anti join ---- *)
+Theorem C15_count_select : forall f cols p, select f cols = Ok p -> length (p_rows p) = length (rows f).
+Proof. exact select_count. Qed.
+Theorem C15_count_union : forall f g p, union f g = Ok p -> length (p_rows p) = (length (rows f) + length (rows g))%nat.
+Proof. exact union_count. Qed.
+Theorem C15_count_crossJoin : forall f g p,
+  cross_join f g = Ok p -> length (p_rows p) = (length (rows f) * length (rows g))%nat.
+Proof. exact cross_join_count. Qed.
+Theorem C15_count_limit : forall f n p, limit f n = Ok p -> length (p_rows p) = Nat.min (Z.to_nat n) (length (rows f)).
+Proof. exact limit_count. Qed.
+Theorem C15_semi_anti_partition : forall f g on ps pa,
+  join f g JSemi on = Ok ps -> join f g JAnti on = Ok pa ->
+  (length (p_rows ps) + length (p_rows pa))%nat = length (rows f).
+Proof. exact semi_anti_partition. Qed.
 
 (* ---- non-vacuity / sanity ---- *)
 Definition kn : name := s2n "k".
